@@ -70,7 +70,6 @@ class Sess:
         self.errored = None  # exc_info of the ProtocolError that closed it via receive
         self.err_response = None
         self.torn = False  # connection torn down: nothing more is delivered
-        self.pending_term = None  # light view of a termination whose ProtocolError the implementation deferred to the next receive
         self.regs = []
 
 
@@ -137,7 +136,7 @@ class World:
         ev["mst_before"] = se.model.st
         if self.observe_pending:
             ev["pend_before"] = self.pending(who)
-        ev["expect"] = None if (is_reg or se.pending_term is not None) else (se.model.call_expect(m, a) if self._args_ok(se, m, a) else None)
+        ev["expect"] = None if is_reg else (se.model.call_expect(m, a) if self._args_ok(se, m, a) else None)
         build_failed = False
         try:
             args, kwargs = values.build_call(m, a)
@@ -286,11 +285,6 @@ class World:
             if se.model.st == "CL":
                 expect = ("error", 0)
                 lights = []
-            elif se.pending_term is not None:
-                # deferred termination (see below): whatever is delivered now, this receive must raise
-                se.mbuf.extend(data)
-                expect = ("error", 0)
-                lights = [se.pending_term]
             else:
                 se.mbuf.extend(data)
                 units, rest, flag = ber.frame_units(se.mbuf)
@@ -299,9 +293,16 @@ class World:
                         raise ber.Malformed(flag)
                     lights = [rfc4511.light(se.mbuf, a, b) for a, b in units]
                 except ber.Malformed as e:
-                    raise HarnessError("model cannot read a stream that should be well-formed: %s" % e)
-                del se.mbuf[:rest]
-                expect = se.model.recv_expect(lights)
+                    if not self.init.get("real_stream"):
+                        raise HarnessError("model cannot read a stream that should be well-formed: %s" % e)
+                    # the bytes come from a real session's data_to_send(): an unreadable stream is an observation
+                    # (the sender corrupted its own output), not a harness failure; prediction stops here
+                    ev["unreadable"] = str(e)
+                    se.predict = False
+                    lights = None
+                if lights is not None:
+                    del se.mbuf[:rest]
+                    expect = se.model.recv_expect(lights)
         ev["expect"] = expect
         ev["lights"] = lights
         # --- the real call
@@ -340,18 +341,6 @@ class World:
         # --- sync with the model
         if expect is not None:
             verdict, cnt = expect
-            if (verdict in ("error", "either") and well_typed and 0 < cnt < len(lights) and len(msgs) == cnt
-                    and se.pending_term is None and se.model.st != "CL" and _is_termination(lights[cnt]) and ev["st_after"] != "CLOSED"):
-                # Tolerated variant (a possible repair of known finding K1): the messages completed before a termination
-                # in the same call are returned and the ProtocolError is raised by the NEXT receive call instead.
-                se.model.recv_commit(lights[:cnt], raised=False)
-                se.pending_term = lights[cnt]
-                ev["deferred_termination"] = True
-                ev["sync"] = True
-                ev["state_sync"] = se.model.state_ok(ev["st_after"])
-                ev["mst_after"] = se.model.st
-                self.note({"op": "deliver", "to": to, "len": len(data), "deferred": True})
-                return ev
             if verdict == "either":
                 sync = (well_typed and len(msgs) == len(lights)) or (not ev["ok"] and ev["exc"]["proto"])
             elif verdict == "ok":
@@ -360,11 +349,7 @@ class World:
                 sync = (not ev["ok"]) and ev["exc"]["proto"]
 
             ev["sync"] = sync
-            if sync and se.pending_term is not None:
-                se.pending_term = None
-                se.model.closed_by_error()
-                ev["state_sync"] = se.model.state_ok(ev["st_after"])
-            elif sync:
+            if sync:
                 if se.model.st != "CL":
                     se.model.recv_commit(lights, raised=not ev["ok"])
                 ev["state_sync"] = se.model.state_ok(ev["st_after"])
